@@ -262,8 +262,19 @@ def oracle(files: Dict[str, str], refine: bool = False, variants: Optional[List[
             with tvdata.quiet():
                 run.calc.volume_base.write_variables(["p"])
                 run.calc.pressure_base.write_variables(["v"])
+            # the (T,P) table just written is labelled with the requested pressures (what `cij extract` / `extract-geotherm` and any
+            # reader use as the abscissa): "pressure-base quantity AT (T,P)" also on paper
+            labels = None
+            for fn in sorted(_os.listdir(d)):
+                if fn.startswith("v_tp"):
+                    with open(_os.path.join(d, fn)) as fp:
+                        labels = numpy.array([float(x) for x in fp.readline().split()[1:]])
+            written_labels = labels
         finally:
             _os.chdir(cwd); shutil.rmtree(d, ignore_errors=True)
+        if written_labels is None or written_labels.shape != p_req.shape or \
+                float(numpy.max(numpy.abs(written_labels * K - p_req))) > 1e-7 * K * max(1.0, float(numpy.max(numpy.abs(p_req))) / K):
+            fail("written_grid", None if written_labels is None else written_labels[:5], (p_req / K)[:5], what="column labels of the written (T,P) volume table")
         with tvdata.quiet():
             vb, pb = run.calc.volume_base, run.calc.pressure_base
             k0 = list(run.calc.modulus_keys)[0]
